@@ -381,7 +381,9 @@ def w3(e: Engine, rep: Report):
 # ---------------------------------------------------------------------- W4
 def w4(e: Engine, rep: Report):
     ctx = e.method_ctx(IOC, 'recv_reply')
-    g = e.build(ctx, raises=lambda b, n, r: set())
+    g = e.build(ctx, raises=lambda b, n, r: set(),
+                inline=e.inline_same_self(deny=['buffered_recv',
+                                                'raw_recv']), max_depth=3)
     where = ctx.func.qname
     heads = common.while_heads(g, g.entry.frame)
     if len(heads) == 1:
@@ -402,9 +404,14 @@ def w4(e: Engine, rep: Report):
                         isinstance(v.slice.lower.func, ast.Attribute) and \
                         v.slice.lower.func.attr == 'end' and \
                         isinstance(v.slice.lower.func.value, ast.Name):
-                    mv = v.slice.lower.func.value.id
+                    # (the match may have been handed to a helper that
+                    # does the consuming)
+                    mx, mfr = common.origin(g, v.slice.lower.func.value,
+                                            n.frame, follow_locals=False)
+                    mv = mx.id if isinstance(mx, ast.Name) else None
                     defs = [s2 for s2 in g.of_kind('stmt')
-                            if isinstance(s2.ast, ast.Assign) and any(
+                            if isinstance(s2.ast, ast.Assign) and
+                            s2.frame is mfr and any(
                                 isinstance(t, ast.Name) and t.id == mv
                                 for t in s2.ast.targets)]
                     if defs and all(
